@@ -15,6 +15,7 @@ type hnswOpts struct {
 	allowReuse bool
 	adversary  bool // remove the entry point / highest-level / hub vertices
 	gauss      bool
+	multi      bool // nearly half of the searches carry two or three queries (per-query cuts, then aggregation)
 	smallOnly  bool // keep at most 2*M resident vertices (exactness clause)
 	mass       int  // > 0: that many adds, then three quarters of them removed in insertion order (no flush), then
 	// searches with a tiny ef: the walk has to cross the removed region to the live vectors
@@ -302,6 +303,9 @@ func runHNSWHistory(r *rand.Rand, p hnswParams, o hnswOpts, t *Trace) *Case {
 				nq = 2 + r.Intn(2)
 			} else if y == 9 {
 				nq = 0
+			} else if o.multi && y >= 4 {
+				nq = 2 + r.Intn(2)
+				t.Stat("hnsw.search_multi_query")
 			}
 			qs := make([][]float32, nq)
 			for i := range qs {
@@ -462,6 +466,7 @@ func genC12(r *rand.Rand, t *Trace, thorough bool) {
 		tag := "hnsw.general"
 		if it%3 == 0 { // exactness regime: at most 2*M resident, ef >= that
 			o.smallOnly = true
+			o.multi = it%6 == 3
 			p.efc = 2*p.m + r.Intn(20)
 			p.efs = 2*p.m + r.Intn(20)
 			tag = "hnsw.small_exact_regime"
